@@ -78,10 +78,6 @@ pub struct FaultEvent {
     pub idx: u64,
     /// `LEN` when the call was made (for a short write: before the prefix was written)
     pub len_at: u64,
-    /// bytes the caller asked to write (0 for syncs)
-    pub asked: u64,
-    /// bytes written by a short write
-    pub wrote: u64,
     pub stamp: u64,
 }
 
@@ -194,7 +190,7 @@ pub unsafe extern "C" fn write(fd: c_int, buf: *const c_void, n: size_t) -> ssiz
                 let off = LEN.fetch_add(r as u64, Ordering::SeqCst);
                 WRITE_TRACE.lock().unwrap().push((off, r as u64));
             }
-            FAULT_LOG.lock().unwrap().push(FaultEvent { kind: FaultKind::WriteShort, idx, len_at, asked: n as u64, wrote: r.max(0) as u64, stamp: tick() });
+            FAULT_LOG.lock().unwrap().push(FaultEvent { kind: FaultKind::WriteShort, idx, len_at, stamp: tick() });
             W_FAILED.store(true, Ordering::SeqCst);
             W_FAIL_FROM.store(idx + 1, Ordering::SeqCst);
             return r;
@@ -203,7 +199,7 @@ pub unsafe extern "C" fn write(fd: c_int, buf: *const c_void, n: size_t) -> ssiz
         W_FAIL_FROM.store(idx, Ordering::SeqCst);
     }
     if in_window(idx, W_FAIL_FROM.load(Ordering::SeqCst), W_FAIL_COUNT.load(Ordering::SeqCst)) {
-        FAULT_LOG.lock().unwrap().push(FaultEvent { kind: FaultKind::WriteFailed, idx, len_at: LEN.load(Ordering::SeqCst), asked: n as u64, wrote: 0, stamp: tick() });
+        FAULT_LOG.lock().unwrap().push(FaultEvent { kind: FaultKind::WriteFailed, idx, len_at: LEN.load(Ordering::SeqCst), stamp: tick() });
         W_FAILED.store(true, Ordering::SeqCst);
         set_errno(W_ERRNO.load(Ordering::SeqCst));
         return -1;
@@ -236,7 +232,7 @@ fn sync_common(fd: c_int, f: extern "C" fn(c_int) -> c_int) -> c_int {
     }
     nap(SYNC_DELAY_US.load(Ordering::Relaxed));
     if in_window(idx, S_FAIL_FROM.load(Ordering::SeqCst), S_FAIL_COUNT.load(Ordering::SeqCst)) {
-        FAULT_LOG.lock().unwrap().push(FaultEvent { kind: FaultKind::SyncFailed, idx, len_at: covered, asked: 0, wrote: 0, stamp: tick() });
+        FAULT_LOG.lock().unwrap().push(FaultEvent { kind: FaultKind::SyncFailed, idx, len_at: covered, stamp: tick() });
         set_errno(S_ERRNO.load(Ordering::SeqCst));
         return -1;
     }
